@@ -466,7 +466,7 @@ func (c *cluster) checkAppliedTask(r *replica, t rsm.Task) {
 func (c *cluster) Canon() []byte {
 	b := &verifkit.CanonBuf{}
 	for _, r := range c.reps {
-		b.Sep('R').U(r.id).Bool(r.started).Bool(r.stopped)
+		b.Sep('R').U(r.id).Bool(r.started).Bool(r.stopped).Bool(r.dead)
 		if !r.started {
 			continue
 		}
@@ -505,7 +505,7 @@ func (c *cluster) Canon() []byte {
 	u := c.used
 	b.Sep('B').U(uint64(u.timeouts), uint64(u.heartbeats), uint64(u.checkQuorums), uint64(u.leases), uint64(u.proposals),
 		uint64(u.reads), uint64(u.confChanges), uint64(u.transfers), uint64(u.snapshots), uint64(u.crashes),
-		uint64(u.dups), uint64(u.drops), uint64(u.midCrashes), uint64(u.reports), uint64(u.reorders), uint64(u.partitions), uint64(c.partition))
+		uint64(u.dups), uint64(u.drops), uint64(u.midCrashes), uint64(u.reports), uint64(u.reorders), uint64(u.partitions), uint64(c.partition), uint64(u.kills))
 	b.U(uint64(c.devs), uint64(c.spos))
 	b.Sep('H')
 	canonMapU(b, c.leaderOf)
